@@ -190,6 +190,35 @@ func (t *Thing) readSeed(r *bufio.Reader) error {
 	return err
 }
 
+// CODECSEQ control: the reader takes the two words in the other order
+type Pair struct{ A, B uint64 }
+
+func (p Pair) WriteTo(w io.Writer) (n int64, err error) {
+	bw := bufio.NewWriter(w)
+	var inc int64
+	if inc, err = buffer.WriteUint64(bw, p.A); err != nil {
+		return n + inc, err
+	}
+	n += inc
+	if inc, err = buffer.WriteUint64(bw, p.B); err != nil {
+		return n + inc, err
+	}
+	return n + inc, bw.Flush()
+}
+
+func (p *Pair) ReadFrom(r io.Reader) (n int64, err error) {
+	br := bufio.NewReader(r)
+	var inc int64
+	if inc, err = buffer.ReadUint64(br, &p.B); err != nil {
+		return n + inc, err
+	}
+	n += inc
+	if inc, err = buffer.ReadUint64(br, &p.A); err != nil {
+		return n + inc, err
+	}
+	return n + inc, nil
+}
+
 // SHARED control: ShallowCopy shares the map M, which put() stores through
 func (t *Thing) put(k uint64) { t.M[k] = k }
 
